@@ -1,5 +1,6 @@
 (* C06/Properties.v — property theorems only. *)
 From Relic Require Import Base.Prelude Generated.C06_gen C06.Model C06.Proofs C06.Append C06.AppendProofs.
+From Relic Require Import Generated.C06rec_gen C06.Record C06.RecordProofs.
 From Coq Require Import Permutation.
 
 (* server: a response carrying a signature is preceded by exactly one delivered record per configured sink,
@@ -215,3 +216,93 @@ Example failing_write_reported :
   s_ret (run_append (mkEnv true true (fun k => Nat.eqb k 0) (fun _ => None)) [1; 2]) = Some false /\
   s_ret (run_prog [AOpen 1; AMarshal 1; AAppend [10]; AWrite 0 [PBlob] 0; AReturn true] (mkEnv true true (fun k => Nat.eqb k 0) (fun _ => None)) [1; 2]) = Some true.
 Proof. split; reflexivity. Qed.
+
+(* ====================================================================================================================
+   "... exactly one audit record ... naming the key, signature type, digest, certificate, client identity and file name
+   ACTUALLY USED."  The CONTENT of the record (C06/Record.v): lib/audit, signinit.Init / PublishAudit, the AuditContext
+   methods, SignOpts.SetBinPatch / SetPkcs7 and the two callers are translated statement by statement
+   (Generated/C06rec_gen.v) and run by an interpreter whose only memory between requests is the package-level variables. *)
+
+(* one request, any process state g, any key / names / certificates / client / file name / digest / signer outcome / sink
+   configuration and faults: what it shows is a function of the request alone (serve_spec, or nothing when Init refuses),
+   and no package-level variable changes *)
+Theorem serve_summary : forall g r,
+  summary (handle g r) = (if init_succeeds r then serve_spec r (init_slots r) else silent) /\ o_glob (handle g r) = g.
+Proof. exact C06.RecordProofs.serve_summary. Qed.
+
+(* a body written to the client is the signer's blob; the signer was given the bundle InitKey loaded for THIS request;
+   before the body, every configured sink took exactly one record, whose identity attributes are the specification's:
+   the key section used, the signer module, the digest, subject / issuer / SHA-1 fingerprint of the leaf of that same bundle,
+   fingerprint and user id of its PGP certificate, the client's address, name (DN / subject / issuer / decision) and file name *)
+Theorem record_names_what_was_used : forall g r b,
+  In b (responded (handle g r)) ->
+  let o := handle g r in
+  b = blob_out r /\ signed_with o = [VRef a_bundle] /\ o_glob o = g /\ order_ok false (o_ev o) = true /\
+  (if c_file r then exists rc, file_records o = [(rc, true)] /\ identity_of rc = spec_server r /\ late_no_bad rc = true else file_records o = []) /\
+  (if c_amqp r then exists rc, amqp_records o = [(rc, true)] /\ identity_of rc = spec_server r /\ late_no_bad rc = true else amqp_records o = []).
+Proof. exact C06.RecordProofs.record_names_what_was_used. Qed.
+
+(* HISTORY INDEPENDENCE: any sequence of requests in one process, from any initial values of the package-level variables:
+   every request shows exactly what it shows as the only request of a fresh process (no memo between requests) *)
+Theorem record_history_independent : forall rs g,
+  map summary (handle_all rec_funcs g rs) = map (fun r => summary (handle [] r)) rs.
+Proof. exact C06.RecordProofs.record_history_independent. Qed.
+Theorem serve_state_untouched : forall g r, o_glob (handle g r) = g.
+Proof. exact C06.RecordProofs.serve_state_untouched. Qed.
+
+(* signinit.Init alone (lib/audit inlined by its calls): the state it leaves, for every request it accepts *)
+Theorem init_state : forall r g fr,
+  init_succeeds r = true ->
+  stage_init (world_of r) rec_funcs (init_args r) (mkState (heap0 r) 100 g fr [])
+  = Done (VTuple [VRef a_bundle; VRef 102; VNil]) (after_init r (init_slots r) (ts_val r) g fr).
+Proof. exact C06.RecordProofs.init_state. Qed.
+Theorem init_identity : forall r, sig_identity (init_slots r) = spec_signature r.
+Proof. exact C06.RecordProofs.init_identity. Qed.
+
+(* the standalone command *)
+Theorem cmd_summary : forall r,
+  summary (cmd r) = (if init_succeeds r then cmd_spec r (init_slots r) else silent) /\ o_glob (cmd r) = cmd_globals r.
+Proof. exact C06.RecordProofs.cmd_summary. Qed.
+Theorem cmd_record_names_what_was_used : forall r,
+  sm_ok (summary (cmd r)) = true -> signed_with (cmd r) <> [] ->
+  let o := cmd r in
+  signed_with o = [VRef a_bundle] /\
+  (if c_file r then exists rc, file_records o = [(rc, true)] /\ identity_of rc = spec_cmd r /\ late_no_bad rc = true else file_records o = []) /\
+  (if c_amqp r then exists rc, amqp_records o = [(rc, true)] /\ identity_of rc = spec_cmd r /\ late_no_bad rc = true else amqp_records o = []).
+Proof. exact C06.RecordProofs.cmd_record_names_what_was_used. Qed.
+
+(* what srcgen reads off the source is what was reviewed: package-level variables of lib/audit (none), internal/signinit,
+   internal/authmodel; the call sites of audit.New / SetX509Cert / SetPgpCert / PublishAudit and their first arguments; the
+   writers of identity attributes (no signer module among them; every key a literal); the origin of keyName, filename, hash,
+   mod, tok, flags, userInfo; nothing left untranslated *)
+Theorem state_inventory_reviewed : rec_pkg_vars = map zs2 reviewed_pkg_vars.
+Proof. exact C06.RecordProofs.state_inventory_reviewed. Qed.
+Theorem setter_calls_reviewed : setter_calls = map zs4 reviewed_setter_calls.
+Proof. exact C06.RecordProofs.setter_calls_reviewed. Qed.
+Theorem identity_writers_reviewed :
+  identity_writers = map zs3 reviewed_identity_writers /\ forallb (fun w => negb (bytes_eqb (snd w) (zs "?"%string))) attr_writes = true.
+Proof. exact C06.RecordProofs.identity_writers_reviewed. Qed.
+Theorem preludes_reviewed : servesign_prelude = reviewed_servesign_prelude /\ signcmd_prelude = reviewed_signcmd_prelude.
+Proof. exact C06.RecordProofs.preludes_reviewed. Qed.
+Theorem everything_translated : rec_untranslated = [].
+Proof. exact C06.RecordProofs.everything_translated. Qed.
+Theorem hash_names_are_the_registered_ones : forall h, hash_name_of h hash_names = spec_hash_name h.
+Proof. exact C06.RecordProofs.hash_names_are_the_registered_ones. Qed.
+
+(* ---- non-vacuity *)
+Example server_request_answered :
+  responded (handle [] req_a) = [VStr (zs "pkcs7 blob"%string)] /\ init_succeeds req_a = true /\
+  map (fun p => identity_of (fst p)) (file_records (handle [] req_a)) = [spec_server req_a].
+Proof. exact C06.RecordProofs.server_request_answered. Qed.
+Example staged_is_mono :
+  summary (handle [] req_b) = summary (run_mono rec_funcs n_serve req_b [] (serve_frame req_b)) /\
+  summary (cmd req_b) = summary (run_mono rec_funcs n_cmd req_b (cmd_globals req_b) (cmd_frame req_b)).
+Proof. exact C06.RecordProofs.staged_is_mono. Qed.
+(* the class of change this decides: the three strings of SetX509Cert memoised per public key *)
+Example memo_names_the_first_certificate :
+  let os := handle_all memo_funcs [] [req_a; req_b; req_a] in
+  map x509_named os = [[spec_x509 cert_a]; [spec_x509 cert_a]; [spec_x509 cert_a]]
+  /\ map responded os = [[VStr (zs "pkcs7 blob"%string)]; [VStr (zs "pkcs7 blob"%string)]; [VStr (zs "pkcs7 blob"%string)]]
+  /\ map x509_named (handle_all rec_funcs [] [req_a; req_b; req_a]) = [[spec_x509 cert_a]; [spec_x509 cert_b]; [spec_x509 cert_a]]
+  /\ (forall o, In o os -> o_glob o <> []).
+Proof. exact C06.RecordProofs.memo_names_the_first_certificate. Qed.
